@@ -176,7 +176,8 @@ def run(ctx):
         vectors = gc.gen_vectors(ctx, fam)
         if fam != "wf":
             vectors = gc.sample_shapes(vectors, frac, ctx.seed)
-        cases, pl = gc.run_family(ctx, fam, vectors)
+        family = gc.Family(ctx, fam, vectors)
+        cases, pl = family.run(vectors), family.pl
         for i, f in sorted(pl.failed.items())[:20]:
             if f[0] not in ("eval",):
                 ctx.notes.append("%s design d%d not usable: %s" % (fam, i, str(f)[:200]))
@@ -189,12 +190,10 @@ def run(ctx):
         # (J) random mode: other members of the value classes, judged by the oracle and validated as a trace
         if fam != "wf":
             rng = random.Random(ctx.seed * 7919 + len(fam))
-            n = 400 if quick else 4000
+            n = 500 if quick else 5000
             pool = [v for v in vectors if not hg.is_absent(under_test(v, fam)[1])]
             rv = rng.sample(pool, min(n, len(pool)))
-            rcases, rpl = gc.run_family(ctx, fam, rv, rng=rng, label=fam + "-random")
-            for c in rcases:
-                c["id"] = "r" + c["id"]
+            rcases = family.run(rv, rng=rng, prefix="r")
             judge(ctx, fam, rcases, gc.Explainer(ctx, fam), nontrivial, stats)
             validate_traces(ctx, fam, rcases, gc.Explainer(ctx, fam), fam + "-random")
     ctx.cov["distinct_nontrivial"] = len(nontrivial)
